@@ -1,7 +1,7 @@
 SPECIFICATION Spec
 CONSTANTS
-  Budget = 3
-  SpaceSize = 3
+  Budget = 2
+  SpaceSize = 2
   MaxMeas = 2
   Rewards <- PalNZP
   Accs = {}
